@@ -81,13 +81,24 @@ def heap_account(v, trace, res):
         prev = cur
     nh = sum(1 for e in evs if e["op"] == "Reset")
     v.add_trace(res, nh)
+    lineage_pass(evs)
     for b in res.get("bad", []):
         e = evs[b["i"] - 1]
+        if "frame" in b["failing"] and e.get("_alias_ok"):
+            # every changed object is connected to the receiver through operations that the property does not
+            # require to copy (Sample, Append, ...): sharing is the code's documented-by-behaviour meaning there
+            b = dict(b, failing=[c for c in b["failing"] if c != "frame"])
+            if not b["failing"]:
+                continue
+        if os.environ.get("VERIF_DEBUG"):
+            vf.log("bad: %s %s %s args=%s msg=%s" % (e["op"], b["failing"], e["kind"], json.dumps(e["a"])[:300], e.get("msg", "")[:200]))
         mine = [c for c in b["failing"] if v.prop in attribute(e["op"], c)]
         if not mine:
             continue
         desc = {"op": e["op"], "failing": sorted(mine), "kind": e["kind"], "args": e["a"], "history": e["h"],
                 "step": e["i"], "msg": e.get("msg", "")}
+        if "frame" in mine and e.get("_alias_ops"):
+            desc["shared_by"] = e["_alias_ops"]
         v.finding(desc, {"family": "heap", "script": {"id": e["h"], "steps": e["_hist"]}})
     for s in res.get("support", []):
         if s["n"] >= 100 and not s["ok"] and v.prop == "C10":
@@ -95,6 +106,50 @@ def heap_account(v, trace, res):
             v.finding({"op": s["op"], "failing": ["support"], "seen": s["seen"], "all": s["all"], "draws": s["n"], "args": e["a"]},
                       {"family": "heap", "note": "support", "script": {"id": e["h"], "steps": e["_hist"]}})
     return res
+
+
+# operations whose result may share row storage with its source: the property (C19) does not list them among the
+# copy-producing operations ("Clones, sub-alignments and site selections own their data"), the code shares, the spec follows
+MAY_SHARE = {"Sample", "SampleSeqBag", "Append", "Rarefy"}
+
+
+def lineage_pass(evs):
+    """For every event whose mutation changed another object, decides whether the sharing is explained by
+    MAY_SHARE edges only (sets e['_alias_ok']) and records the responsible copy-producing operations."""
+    edges = []          # (i, j, op): object j was derived from object i by op (or Append made recv share with other)
+    prev = []
+    for e in evs:
+        if e["op"] == "Reset":
+            edges, prev = [], []
+            continue
+        cur = abstract(e["objs"])
+        recv = e["recv"]
+        changed = [i + 1 for i in range(min(len(prev), len(cur))) if i + 1 != recv and prev[i] != cur[i]]
+        if changed and recv:
+            ok = True
+            culprits = set()
+            for c in changed:
+                # is there a path recv .. c using MAY_SHARE edges only?
+                seen, todo = {recv}, [recv]
+                while todo:
+                    x = todo.pop()
+                    for (i, j, op) in edges:
+                        if op in MAY_SHARE:
+                            for a, b2 in ((i, j), (j, i)):
+                                if a == x and b2 not in seen:
+                                    seen.add(b2)
+                                    todo.append(b2)
+                if c not in seen:
+                    ok = False
+                    culprits |= {op for (i, j, op) in edges if op not in MAY_SHARE and (i in (recv, c) or j in (recv, c))}
+            e["_alias_ok"] = ok
+            e["_alias_ops"] = sorted(culprits)
+        for k in range(len(prev), len(cur)):
+            if e["op"] != "New" and recv:
+                edges.append((recv, k + 1, e["op"]))
+        if e["op"] == "Append" and "other" in e["a"] and e["kind"] == "ok":
+            edges.append((e["a"]["other"], recv, "Append"))
+        prev = cur
 
 
 def write_cfg(work, name, spec="Spec", invariants=(), constants=None, deadlock=False, props=()):
@@ -201,3 +256,12 @@ PIPELINES["C01"] = heap_pipeline("C01", quick=dict(depth=1, sim=(25, 4), rand=25
                                  thorough=dict(depth=2, sim=(400, 6), rand=4000))
 PIPELINES["C04"] = heap_pipeline("C04", quick=dict(depth=1, sim=(6, 3), rand=250),
                                  thorough=dict(depth=2, sim=(100, 5), rand=4000), mc=["MC_Sites"])
+
+for _p, _q, _t in (("C05", 200, 3000), ("C10", 200, 3000), ("C12", 250, 4000), ("C13", 250, 4000), ("C14", 200, 3000),
+                   ("C15", 250, 4000), ("C19", 250, 4000)):
+    def _mk(p, q, t):
+        def run(work, v, tier, seed):
+            vf.build_driver(work)
+            heap_random_validate(work, v, p, q if tier == "quick" else t, seed, tier)
+        return run
+    PIPELINES.setdefault(_p, _mk(_p, _q, _t))
